@@ -406,6 +406,44 @@ open Mochi.InflOrder in
 example : ∀ a ∈ candidates inflWrapStore false, ∀ b ∈ candidates inflWrapStore false, a.created = b.created → a = b := by
   decide
 
+open Mochi.InflOrder in
+/-- an operation on the in-flight store -/
+inductive InflOp where
+  | set (r : Rec)
+  | del (id : Nat)
+
+open Mochi.InflOrder in
+/-- the store after a sequence of `Set` / `Delete` calls -/
+def inflRun (s : Store) (ops : List InflOp) : Store :=
+  ops.foldl (fun st op => match op with | .set r => (set st r).1 | .del id => (del st id).1) s
+
+open Mochi.InflOrder in
+/-- every store REACHABLE from the empty one by any sequence of `Set` / `Delete` holds at most one record per packet
+    id: the hypothesis of `C12_inflight_store_is_a_map` is met by every reachable store -/
+theorem C12_inflight_reachable_unique (ops : List InflOp) : UniqueIds (inflRun [] ops) := by
+  suffices h : ∀ s, UniqueIds s → UniqueIds (inflRun s ops) from h [] (by simp [UniqueIds])
+  induction ops with
+  | nil => intro s h; exact h
+  | cons op ops ih =>
+    intro s h
+    cases op with
+    | set r => exact ih _ (set_unique s r h)
+    | del id => exact ih _ (del_unique s id h)
+
+open Mochi.InflOrder in
+/-- the last operation decides: after `… ; Set r` the store holds `r` and no other record of its id; after
+    `… ; Delete id` it holds no record of that id — for every reachable store -/
+theorem C12_inflight_last_op (ops : List InflOp) (r : Rec) (id : Nat) :
+    (∀ x ∈ inflRun [] (ops ++ [.set r]), x.id = r.id → x = r) ∧ r ∈ inflRun [] (ops ++ [.set r]) ∧
+    (∀ x ∈ inflRun [] (ops ++ [.del id]), x.id ≠ id) := by
+  simp only [inflRun, List.foldl_append, List.foldl_cons, List.foldl_nil]
+  refine ⟨fun x hx hid => ?_, (mem_set _ r r).mpr (Or.inl rfl), fun x hx => ((mem_del _ id x).mp hx).2⟩
+  rcases (mem_set _ r x).mp hx with h | ⟨_, h⟩
+  · exact h
+  · exact absurd hid h
+
+#print axioms C12_inflight_reachable_unique
+#print axioms C12_inflight_last_op
 #print axioms C12_distinct_seconds_unique_order
 #print axioms C12_next_immediate_unique
 #print axioms C12_inflight_store_is_a_map
